@@ -233,7 +233,6 @@ func runProperty(p *vc.Prog, id string, claims *PropClaim, known []KnownFinding,
 			switch r.R.Status {
 			case "unsat":
 				out.vacuous = append(out.vacuous, fn)
-				out.violations = append(out.violations, violation{Func: fn, Obl: r.O.Name, Status: "VACUOUS", Output: r.R.Output, Why: "the assumptions of this function are contradictory (return unreachable)"})
 			case "sat":
 				out.vacuityOK++
 			default:
@@ -253,6 +252,21 @@ func runProperty(p *vc.Prog, id string, claims *PropClaim, known []KnownFinding,
 		out.violations = append(out.violations, violation{Func: fn, Obl: r.O.Name, Status: r.R.Status, Output: r.R.Output, Query: r.O.Query(smt.Prelude), Clause: r.O.Clause, SrcLine: r.O.SrcLine,
 			Why: "obligation not discharged (" + r.R.Status + ")"})
 	}
+	// a function whose every return is unreachable under its assumptions is vacuously verified; this is
+	// only meaningful when all its other obligations passed (a failed obligation is assumed afterwards,
+	// which by itself can make later points unreachable)
+	failedFn := map[string]bool{}
+	for _, v := range out.violations {
+		failedFn[v.Func] = true
+	}
+	var realVacuous []string
+	for _, fn := range out.vacuous {
+		if !failedFn[fn] {
+			realVacuous = append(realVacuous, fn)
+			out.violations = append(out.violations, violation{Func: fn, Obl: "vacuity:return-reachable", Status: "VACUOUS", Why: "the assumptions of this function are contradictory (no return is reachable)"})
+		}
+	}
+	out.vacuous = realVacuous
 	// generator errors in claimed functions are failures, not silent drops
 	var gk []string
 	for fn := range out.genErrors {
